@@ -81,7 +81,7 @@ def run_one_path(spec, tier, prefix, seed, known_active, deadline_s=120.0, timeo
     _install_stubs(interp, getattr(sys.modules[spec.module], "STUBS", []))
     eng = Engine(prefix=prefix, timeout_ms=timeout_ms, seed=seed)
     if E.XCHECK["rate"] < 0:
-        E.XCHECK["rate"] = 0.003 if tier == "quick" else 0.02
+        E.XCHECK["rate"] = 0.02 if tier == "quick" else 0.05
     E.set_current(eng)
     S = SymCtx(eng, interp, known_active)
     interp.exc_stack = []
